@@ -518,6 +518,15 @@ def rule_same_words(ctx, strict=False):
     v = ssym.local(0)
     # decided by evaluating both expression trees over their whole domain: any spelling of rank*8+file / (v/8, v%8) passes
     ok8 = all(mir.eval_expr(r0, {"value.rank": r, "value.file": f}) == r * 8 + f for r in range(8) for f in range(8))
+    if not ok8 and s8.arg_count == 1:
+        # through helpers (`value.u8()`): the same 64 evaluations by walking the function with the square fixed
+        from . import cases
+
+        def walked(r, f):
+            run = cases.run(ix, s8, {s8.local_name(1): ("agg", "board::square::Square", "Square", (("const", r, "u8"), ("const", f, "u8")), ("rank", "file"))})
+            rets = {p.ret for p in run.paths if p.end == "return"}
+            return next(iter(rets))[1] if len(rets) == 1 and next(iter(rets))[0] == "const" and not run.overflow else None
+        ok8 = all(walked(r, f) == r * 8 + f for r in range(8) for f in range(8))
     oksq = v[0] == "agg" and len(v[3]) == 2 and tuple(v[4]) == ("rank", "file") and all(
         (mir.eval_expr(v[3][0], {"value": n}), mir.eval_expr(v[3][1], {"value": n})) == (n // 8, n % 8) for n in range(64))
     ctx.check(ok8 and oksq, "square-index-maps", "Square -> u8 is rank*8+file and u8 -> Square is (v>>3, v%8): the loop index of From and the mutators' square index agree", s8.where(0),
